@@ -323,6 +323,75 @@ let run_disk (path : string) =
       Printf.printf "D %s %s\n" (node_dump true !x.dn_node) (files_digest !x)) c.ops;
     print_string "E\n") (read_cases path)
 
+
+(* ---------- crash during a snapshot (C11) ---------- *)
+let parse_orders toks = List.map (fun o -> if o = "-" then [] else
+    List.map (fun h -> cl_of_string (unhex h)) (String.split_on_char ',' o)) toks
+let rec split_at_dashes acc = function
+  | "--" :: r -> (List.rev acc, r)
+  | x :: r -> split_at_dashes (x :: acc) r
+  | [] -> (List.rev acc, [])
+
+let run_crash11 (path : string) =
+  List.iter (fun c ->
+    Printf.printf "C %s\n" c.id;
+    let x = ref { dn_node = init_node (cl_of_string "nun") (cl_of_string "pwd") (cl_of_string "n0:3014") (n_of_int 1000) Primary clock0;
+                  dn_files = [] } in
+    let dead = ref false in
+    let part = ref 0 in
+    let ra = ref [] and rb = ref [] in
+    let restart lo =
+      match drestart !x (List.map (fun h -> cl_of_string (unhex h)) lo) with
+      | RNode x' -> x := x'; "Restarted"
+      | RStartPanic -> dead := true; "PANIC" in
+    let flush_line () =
+      (match !ra with [] -> () | l -> Printf.printf "A %s\n" (String.concat ";" (List.rev l)); ra := []);
+      (match !rb with [] -> () | l -> Printf.printf "B %s\n" (String.concat ";" (List.rev l)); rb := []) in
+    List.iter (fun op ->
+      let op = match op with o :: r when String.length o > 0 && o.[0] = '+' -> String.sub o 1 (String.length o - 1) :: r | _ -> op in
+      let push r = if !part = 0 then ra := r :: !ra else rb := r :: !rb in
+      if !dead then (match op with "kill" :: _ -> flush_line (); Printf.printf "K DEAD\n" | _ -> ()) else
+      match op with
+      | ["conn"] -> let (n', _) = connect !x.dn_node in x := { !x with dn_node = n' }; push "Conn"
+      | ["cmd"; sid; line] ->
+        let (n', r) = step !x.dn_node (nat_of_int (int_of_string sid)) (cl_of_string (unhex line)) in
+        let n' = n_set_sup (n_set_repl n' []) [] in
+        let n' = { n' with n_sess = List.map (fun s -> { s with s_inbox = [] }) n'.n_sess } in
+        x := { !x with dn_node = n' }; push (resp_str r)
+      | "flush" :: orders when !part = 0 -> x := dflush !x (parse_orders orders); push "Flushed"
+      | "flush" :: _ -> ()   (* the flush of part B is the one that is killed *)
+      | "restart" :: lo -> push (restart lo)
+      | "---" :: lo -> flush_line (); ignore (restart lo); part := 1; Printf.printf "START valid=1\n"
+      | "kill" :: ty :: n :: rest ->
+        flush_line ();
+        let (orders, lo) = split_at_dashes [] rest in
+        let orders = parse_orders orders in
+        let n = int_of_string n in
+        let sc = match ty with "write" -> ScWrite | "pwrite64" -> ScPwrite | "rename" -> ScRename | "unlink" -> ScUnlink
+                             | _ -> ScUnlink in
+        let plan = if ty = "none" then [] else List.filter (fun (_, o) -> is_sc sc o) (dflush_plan !x orders) in
+        let total = List.length plan in
+        let files = if ty = "none" then !x.dn_files else dflush_crash !x orders sc (nat_of_int n) in
+        let verdict = if n > total && ty <> "none" then "complete" else "killed" in
+        let site = if ty = "none" || n > total then "none" else
+            (let (dbn, _) = List.nth plan (n - 1) in
+             let recl = List.exists (fun (nm, r) -> nm = dbn && r) !x.dn_node.n_snap in
+             if recl then "reclaim:" else "incr:") ^
+            (match List.nth plan (n - 1) with
+             | (_, OpAppend (f, _)) -> "append" ^ fname_suffix f
+             | (_, OpWriteAt (f, off, d)) -> Printf.sprintf "writeat%s/%d" (fname_suffix f) (List.length d)
+             | (_, OpRename (a, b)) -> "rename" ^ fname_suffix a ^ ">" ^ fname_suffix b
+             | (_, OpRemove f) -> "remove" ^ fname_suffix f
+             | (_, OpCreate f) -> "create" ^ fname_suffix f) in
+        Printf.printf "#site %s %d %s\n" ty n site;
+        let x1 = { !x with dn_files = files } in
+        (match drestart x1 (List.map (fun h -> cl_of_string (unhex h)) lo) with
+         | RNode x' -> Printf.printf "K %s %d %s START valid=1 D %s %s\n" ty n verdict (node_dump true x'.dn_node) (files_digest x')
+         | RStartPanic -> Printf.printf "K %s %d %s START PANIC\n" ty n verdict)
+      | _ -> failwith "bad crash11 op") c.ops;
+    flush_line ();
+    print_string "E\n") (read_cases path)
+
 (* ---------- cluster ---------- *)
 let cluster_dump (c : cluster) : string =
   let b = Buffer.create 512 in
@@ -479,6 +548,7 @@ let () =
   | [_; "sched"; path] -> run_sched path
   | [_; "cluster"; path] -> run_cluster path
   | [_; "disk"; path] -> run_disk path
+  | [_; "crash11"; path] -> run_crash11 path
   | [_; "node"; path] -> run_node path
   | [_; "oplog"; path] -> run_oplog path
   | [_; "pending"; path] -> run_pending path
